@@ -20,7 +20,7 @@ PROPS = {
         "assumptions": ["rune iteration of IsValidRID equals the byte loop (tied by the 256-byte class table and exhaustive short strings)"],
     },
     "C17": {
-        "suites": [("pure", "status"), ("pure", "headers"), ("pure", "origins"), ("pure", "cors"), ("gw", "mixed"), ("gw", "http")],
+        "suites": [("pure", "status"), ("pure", "headers"), ("pure", "origins"), ("pure", "cors"), ("pure", "wsauth"), ("gw", "mixed"), ("gw", "http")],
         "theorems_carry": "status tables (regenerated, decided), default 400 for every other code, direct-status range for every integer, protected headers for every header set and every spelling, Set-Cookie accumulation, origin acceptance iff equal ignoring ASCII case for all byte strings, the CORS decision (refused iff an Origin header is present - even empty -, not null and not listed; WebSocket upgrade verdict the same; * refuses nothing)",
         "correspondence_only": "that a direct status of an auth, access or call answer ends the HTTP request without further service requests (lockstep of GET/HEAD/POST/PUT with meta statuses, with and without header authentication, + monitor request-after-direct-status), that service headers are merged into the real response without replacing the protected ones and with Set-Cookie accumulating (monitor on the real response), that refusal precedes any service request (suite cors)",
         "assumptions": ["net/http drops header names that are not tokens", "allow-list entries are lower-cased by Config.prepare (validateAllowOrigin)"],
